@@ -326,7 +326,7 @@ func runC02(rc *RunCtx) {
 	if err != nil {
 		panic(err)
 	}
-	defer h.Shutdown()
+	defer func() { h.Shutdown() }()
 	must(h.Mount("rec", "rec", nil))
 	must(h.EnableAuth("rec", "rec"))
 	paths := []string{"data/a", "data/b", "data/sub/k1", "data/sub/k2", "data/other", "admin/x", "open/o"}
@@ -503,10 +503,61 @@ func runC02(rc *RunCtx) {
 		}
 		return logical.ListOperation
 	}
+	doReq := func(c int, tag string, p reqPlan) {
+		call := stamp()
+		before := len(rec.Snapshot())
+		faultsBefore := s.Faults["err-na"]
+		r := Req{Op: opsOf(p.op), Path: "rec/" + p.path, Token: p.tok.raw, Remote: p.remote}
+		if p.op == "update" {
+			r.Data = map[string]any{"value": "v-" + p.path}
+		}
+		resp, err := h.Do(tag, r)
+		_ = resp
+		_ = err
+		id := ""
+		allowed := false
+		for _, e := range rec.Snapshot()[before:] {
+			if strings.HasPrefix(e.ReqID, tag+"-") {
+				id = e.ReqID
+				if e.Kind == "handler" {
+					allowed = true
+				}
+			}
+		}
+		ret := stamp()
+		in := azIn{Kind: "request", Tok: p.tok.az, Path: p.path, Op: p.op, Remote: p.remote}
+		s.mu.Lock()
+		faulted := s.Faults["err-na"] > faultsBefore
+		recordRequest(c, in, azOut{Allowed: allowed, Faulted: faulted}, call, ret)
+		if !allowed && id != "" {
+			denied = append(denied, id)
+		}
+		s.mu.Unlock()
+	}
 	total := 0
+	// cold start in a third of the runs: the race begins on a freshly restarted
+	// node, so the first request of every token has to load its policies and
+	// token entry from storage (policy LRU, token caches and physical cache are
+	// empty) while the mutators change them
+	if cold := tp.Pick(2) == 1; cold {
+		rc.Cfg("cold_start", true)
+		old := h
+		old.Shutdown()
+		nh, err := Reboot(disk, old)
+		if err != nil {
+			panic(err)
+		}
+		h = nh
+		s.SetControlled()
+		s.Drain(5*time.Second, time.Second)
+		s.PassThrough()
+	}
 	if faulty {
 		s.SetFaults(25, 3, FaultErrNA)
 	}
+	s.SwarmFreeze()
+	rc.Cfg("long_stall_permille", s.FreezePermille)
+	rc.Cfg("yield_on_release", s.YieldOnRelease)
 	s.SetControlled()
 	for c := 0; c < nClients; c++ {
 		c := c
@@ -538,35 +589,7 @@ func runC02(rc *RunCtx) {
 		tag := fmt.Sprintf("c%d", c)
 		s.Go(tag, func() {
 			for _, p := range plan {
-				call := stamp()
-				before := len(rec.Snapshot())
-				faultsBefore := s.Faults["err-na"]
-				r := Req{Op: opsOf(p.op), Path: "rec/" + p.path, Token: p.tok.raw, Remote: p.remote}
-				if p.op == "update" {
-					r.Data = map[string]any{"value": "v-" + p.path}
-				}
-				resp, err := h.Do(tag, r)
-				_ = resp
-				_ = err
-				id := ""
-				allowed := false
-				for _, e := range rec.Snapshot()[before:] {
-					if strings.HasPrefix(e.ReqID, tag+"-") {
-						id = e.ReqID
-						if e.Kind == "handler" {
-							allowed = true
-						}
-					}
-				}
-				ret := stamp()
-				in := azIn{Kind: "request", Tok: p.tok.az, Path: p.path, Op: p.op, Remote: p.remote}
-				s.mu.Lock()
-				faulted := s.Faults["err-na"] > faultsBefore
-				recordRequest(c, in, azOut{Allowed: allowed, Faulted: faulted}, call, ret)
-				if !allowed && id != "" {
-					denied = append(denied, id)
-				}
-				s.mu.Unlock()
+				doReq(c, tag, p)
 			}
 		})
 	}
@@ -626,6 +649,14 @@ func runC02(rc *RunCtx) {
 	s.PassThrough()
 	if s.Trunc {
 		return
+	}
+	// sequential tail: after every change has been acknowledged each token
+	// makes a few more requests; they pin the end state (a stale cache entry
+	// put back by a request that raced with a change shows here at the latest)
+	for _, t := range toks {
+		for _, pa := range paths {
+			doReq(90, "fin", reqPlan{tok: t, path: pa, op: []string{"read", "update"}[tp.Pick(2)], remote: "127.0.0.1"})
+		}
 	}
 	// (3) denied requests left no trace under the mount
 	deniedSet := map[string]bool{}
